@@ -69,6 +69,7 @@ InitObs(meta) ==
       cancelAll |-> FALSE, cancelAllHow |-> "", cancelRaised |-> FALSE,
       entryOpen |-> FALSE, entryPending |-> FALSE, entryCtl |-> FALSE, entrySkipped |-> FALSE,
       ctlNeed |-> {}, ctlMissed |-> FALSE, kbiWait |-> FALSE, kbiSkipped |-> FALSE,
+      ctlHooked |-> FALSE,
       stuck |-> "", ended |-> FALSE, permsBad |-> FALSE, finalBad |-> <<>>,
       n |-> 0 ]
 
@@ -384,7 +385,8 @@ ObsAnnBegin(o0, ev) ==
 CancelRet(o00, ev) ==
     LET o0 == IF ev.x < 0 /\ o00.entryOpen
               THEN [o00 EXCEPT !.entryOpen = FALSE,
-                               !.entrySkipped = @ \/ (o00.entryPending /\ ~o00.entryCtl)]
+                               !.entrySkipped = @ \/ (o00.ctlHooked /\ o00.entryPending
+                                                        /\ ~o00.entryCtl)]
               ELSE o00 IN
     IF ~ev.ok THEN [o0 EXCEPT !.cancelRaised = TRUE] ELSE
     [o0 EXCEPT !.x = [j \in DOMAIN o0.x |->
@@ -500,6 +502,8 @@ Apply(o0, ev) ==
       [] ev.e = "Status" -> StatusEv(o, ev)
       [] ev.e = "CancelCall" -> CancelCall(o, ev)
       [] ev.e = "CancelRet" -> CancelRet(o, ev)
+      \* (the controller's cancel/wait are observed in this run)
+      [] ev.e = "CtlHooked" -> [o EXCEPT !.ctlHooked = TRUE]
       [] ev.e = "CtlCancelBegin" -> CtlCancelBegin(o)
       [] ev.e = "CtlCancelEnd" -> CtlCancelEnd(o)
       [] ev.e = "CtlWaitKbi" -> CtlWaitKbi(o)
